@@ -189,7 +189,12 @@ def main():
             searched += len(res2['cases'])
             if ctx.violations:
                 break
+    # (D) the registration glue: the same classes, method keys and definition functions registered in several policies through
+    # the public front end (method<>::add_function, use_classes), interleaved (checks/C14_glue.py)
+    import C14_glue
+    glue = C14_glue.run(ctx, lambda summary, rep: ctx.violation(summary, rep))
     cov = {
+        'registration_glue_programs (same classes / keys / definition functions in several policies; checks/C14_glue.py)': glue,
         'evaluations': acc['cases'], 'distinct_nontrivial': len(acc['nontrivial']), 'distinct': len(acc['hashes']),
         'rule': 'one evaluation = one interleaved history run on harness H1 over 2-3 driver policies made from one another by rebind / replace / remove '
                 '(groups in policy_groups), each with its own registry from tools/corelib.gen_registry over the SAME class ids (same registry, same classes '
